@@ -17,6 +17,7 @@ import (
 	"flag"
 	"fmt"
 	"os"
+	"runtime"
 	"runtime/debug"
 	"runtime/pprof"
 	"sort"
@@ -142,6 +143,7 @@ type ghost struct {
 	// caches (never part of the key; disabled by env.nocache): observation and
 	// store digest of this node's state / of the parent's state
 	obsHere, parentObs *obs
+	dropped            bool // store overlay released (last level)
 	digHere, parentDig string
 }
 
@@ -193,6 +195,7 @@ type env struct {
 	feesNoA   map[string]*treasurytypes.RelayerFeeSetting
 	maxSnaps  int
 	nocache   bool
+	dropAt    int // depth of the level that is never expanded in the current scenario
 	other0    string
 }
 
@@ -385,7 +388,8 @@ func run(r *report.Run, shard, nshards int, replayFile string) {
 		must(pprof.StartCPUProfile(f))
 		defer pprof.StopCPUProfile()
 	}
-	debug.SetGCPercent(400) // states are small and short-lived; trade memory for collector time
+	debug.SetGCPercent(200)       // most allocations are short-lived forks; trade some memory for collector time
+	debug.SetMemoryLimit(3 << 30) // soft limit per worker: the collector works harder instead of growing further
 	w := world.New(world.Config{Stakes: world.StakesOf(1_000_000, 1_000_000, 1_000_000), Users: []string{"U1", "U2"}, Height: 101})
 	ctx := w.Root
 	e := &env{w: w, r: r, users: []*world.Actor{w.User("U1"), w.User("U2")}, shard: shard, nshards: nshards, maxSnaps: 1}
@@ -487,7 +491,7 @@ func run(r *report.Run, shard, nshards int, replayFile string) {
 		Name: "fresh", Init: []*explore.Node{{Ctx: ctx, Ghost: g0}}, Ops: e.ops,
 		Hash: e.hash, Invariant: e.invariant,
 		MaxDepth: 4, Deadline: r.Deadline(100*time.Second, 8*time.Minute),
-		ShardDepth: 2, Shard: shard, NShards: nshards,
+		ShardDepth: 2, Shard: shard, NShards: nshards, MaxStates: 400_000,
 	}
 	// seeded: j1 fixed/P1 owned by U1, j2 modifiable/P2 owned by U2 — created by the real handlers
 	sctx := world.Fork(ctx)
@@ -519,7 +523,7 @@ func run(r *report.Run, shard, nshards int, replayFile string) {
 		Name: "seeded", Init: []*explore.Node{{Ctx: sctx, Ghost: sg}}, Ops: e.ops,
 		Hash: e.hash, Invariant: e.invariant,
 		MaxDepth: 4, Deadline: r.Deadline(150*time.Second, 24*time.Minute),
-		ShardDepth: 2, Shard: shard, NShards: nshards,
+		ShardDepth: 2, Shard: shard, NShards: nshards, MaxStates: 400_000,
 	}
 	if r.Thorough() {
 		fresh.MaxDepth = 5  // + deadline: ~1.4e6 transitions
@@ -536,13 +540,25 @@ func run(r *report.Run, shard, nshards int, replayFile string) {
 		return
 	}
 	for _, spec := range specs {
+		e.dropAt = spec.MaxDepth
 		res := explore.Run(r, spec)
+		runtime.GC()
 		if shard == 0 {
 			r.Extra["depth_completed:"+spec.Name] = float64(res.DepthCompleted)
 		}
 	}
 	r.Evaluations = r.Transitions
 	r.DistinctN = r.States
+	var ms runtime.MemStats
+	runtime.ReadMemStats(&ms)
+	r.Extra["heap_sys_mb_sum"] = float64(ms.HeapSys >> 20)
+	if os.Getenv("VERIF_C17_MEM") != "" { // experiments only
+		r.Extra["heap_inuse_before_gc_mb_sum"] = float64(ms.HeapInuse >> 20)
+		runtime.GC()
+		runtime.ReadMemStats(&ms)
+		r.Extra["heap_live_after_gc_mb_sum"] = float64(ms.HeapAlloc >> 20)
+		runtime.KeepAlive(specs)
+	}
 }
 
 func replay(r *report.Run, specs []explore.Spec, file string) {
@@ -579,7 +595,7 @@ func replay(r *report.Run, specs []explore.Spec, file string) {
 
 func (e *env) hash(n *explore.Node) string {
 	g := n.Ghost.(*ghost)
-	if e.nocache || g.digHere == "" {
+	if !g.dropped && (e.nocache || g.digHere == "") {
 		g.digHere = e.digest(n.Ctx)
 	}
 	h := sha256.Sum256([]byte(g.Key() + "|" + g.digHere))
@@ -646,6 +662,15 @@ func (e *env) invariant(n *explore.Node) *explore.Fail {
 				return explore.Failf("queue:call-changed", "queue %s call #%d differs from the call enqueued by its request:\n want %+v\n got  %+v", q, i, want[i], got[i])
 			}
 		}
+	}
+	// A state of the last level is never expanded: once checked and digested it only needs its
+	// hash, so its store overlay (the bulk of a state's memory) and observations are released.
+	if e.dropAt > 0 && g.depth >= e.dropAt && !e.nocache {
+		if g.digHere == "" {
+			g.digHere = e.digest(n.Ctx)
+		}
+		g.obsHere, g.parentObs, g.dropped = nil, nil, true
+		n.Ctx = sdk.Context{}
 	}
 	return nil
 }
